@@ -793,7 +793,8 @@ class TradingEnvXY(TradingEnv):
         start = max(X.first_valid_index(), Y.first_valid_index())
         end = min(X.last_valid_index(), Y.last_valid_index())
         Y = Y.loc[start:end]
-        timesteps = Y.drop([t for t in holidays if t in Y.index]).index
+        # Drop every row dated on a holiday, whatever its time of the day.
+        timesteps = Y.index[~Y.index.normalize().isin(pd.DatetimeIndex(holidays))]
         timesteps = timesteps[window:]
         return timesteps
 
